@@ -26,6 +26,8 @@ pub struct Relay {
     pub accepted: Arc<AtomicUsize>,
     pub open: Arc<AtomicUsize>,
     pub peak_open: Arc<AtomicUsize>,
+    /// one entry per accepted connection, in accept order: notifying it cuts that connection (both directions, at once)
+    pub cuts: Arc<std::sync::Mutex<Vec<Arc<tokio::sync::Notify>>>>,
     task: tokio::task::JoinHandle<()>,
 }
 
@@ -43,10 +45,14 @@ pub async fn start_relay(server_addr: String) -> Option<Relay> {
     let open = Arc::new(AtomicUsize::new(0));
     let peak_open = Arc::new(AtomicUsize::new(0));
     let (a2, o2, p2) = (accepted.clone(), open.clone(), peak_open.clone());
+    let cuts: Arc<std::sync::Mutex<Vec<Arc<tokio::sync::Notify>>>> = Arc::new(std::sync::Mutex::new(Vec::new()));
+    let cuts2 = cuts.clone();
     let task = tokio::spawn(async move {
         loop {
             let Ok((mut c, _)) = l.accept().await else { continue };
             let _ = c.set_nodelay(true);
+            let cut = Arc::new(tokio::sync::Notify::new());
+            cuts2.lock().unwrap().push(cut.clone());
             a2.fetch_add(1, Ordering::SeqCst);
             let now = o2.fetch_add(1, Ordering::SeqCst) + 1;
             p2.fetch_max(now, Ordering::SeqCst);
@@ -55,13 +61,16 @@ pub async fn start_relay(server_addr: String) -> Option<Relay> {
             tokio::spawn(async move {
                 if let Ok(mut s) = TcpStream::connect(&sa).await {
                     let _ = s.set_nodelay(true);
-                    let _ = tokio::io::copy_bidirectional(&mut c, &mut s).await;
+                    tokio::select! {
+                        _ = tokio::io::copy_bidirectional(&mut c, &mut s) => {}
+                        _ = cut.notified() => {}
+                    }
                 }
                 o3.fetch_sub(1, Ordering::SeqCst);
             });
         }
     });
-    Some(Relay { addr, accepted, open, peak_open, task })
+    Some(Relay { addr, accepted, open, peak_open, cuts, task })
 }
 
 /// settle time after a request before the next one starts (raised for confirmation re-runs)
@@ -419,6 +428,89 @@ async fn overlap_then_sequential(rep: &mut Report, long_first: bool) {
     w.client.stop_session_pool_cleanup().await;
 }
 
+/// k overlapping requests give k sessions (connection order = start order); all finish and are released. Then
+/// some of those connections — never all — are cut underneath the idle sessions (a NAT timeout, a server-side
+/// idle kill), the reaper being too slow to sweep. Sequential requests afterwards must be served by one of the
+/// healthy idle sessions that are left: no new TLS connection.
+async fn dead_idle_neighbours(rep: &mut Report, k: usize, dead: Vec<usize>) {
+    let pool = SessionPoolConfig { check_interval: Duration::from_secs(30), idle_timeout: Duration::from_secs(120), min_idle_sessions: 0 };
+    let Some(w) = build_world(pool).await else {
+        rep.inconclusive("cannot build world");
+        return;
+    };
+    let w = Arc::new(w);
+    let mut hs = Vec::new();
+    for i in 0..k {
+        let w2 = w.clone();
+        hs.push(tokio::spawn(async move {
+            let ip = netkit::uniq_ip(59, i as u32 + 1);
+            let (mut s, code) = netkit::socks5_connect(&w2.socks, &SocksDest::V4(ip, w2.target_port), Duration::from_secs(20)).await?;
+            if code != 0 {
+                return Err(format!("socks reply {code}"));
+            }
+            tokio::time::sleep(Duration::from_millis(500)).await;
+            s.write_all(b"held").await.map_err(|e| e.to_string())?;
+            let mut b = [0u8; 4];
+            tokio::time::timeout(Duration::from_secs(10), s.read_exact(&mut b)).await.map_err(|_| "echo timeout".to_string())?.map_err(|e| e.to_string())?;
+            s.shutdown().await.map_err(|e| e.to_string())?;
+            let mut rest = Vec::new();
+            let _ = tokio::time::timeout(Duration::from_secs(5), s.read_to_end(&mut rest)).await;
+            Ok::<(), String>(())
+        }));
+        // the next request starts only after this one's connection is up, so that accept order = start order
+        for _ in 0..200 {
+            if w.relay.accepted.load(Ordering::SeqCst) > i {
+                break;
+            }
+            tokio::time::sleep(Duration::from_millis(5)).await;
+        }
+        tokio::time::sleep(Duration::from_millis(30)).await;
+    }
+    for h in hs {
+        let r = h.await.unwrap_or(Err("join".into()));
+        if let Err(e) = r {
+            rep.inconclusive(format!("overlapping request: {e}"));
+            return;
+        }
+    }
+    tokio::time::sleep(Duration::from_millis(SETTLE_MS.load(Ordering::SeqCst).max(150))).await;
+    let dials_before = w.relay.accepted.load(Ordering::SeqCst);
+    if dials_before != k {
+        rep.inconclusive(format!("{k} overlapping requests used {dials_before} connections; history cannot be judged"));
+        return;
+    }
+    {
+        let cuts = w.relay.cuts.lock().unwrap();
+        for d in &dead {
+            cuts[*d].notify_one();
+        }
+    }
+    // let the client notice the dead transports
+    for _ in 0..100 {
+        if w.relay.open.load(Ordering::SeqCst) <= k - dead.len() {
+            break;
+        }
+        tokio::time::sleep(Duration::from_millis(10)).await;
+    }
+    tokio::time::sleep(Duration::from_millis(200)).await;
+    let mut after = Vec::new();
+    for j in 0..3u32 {
+        if let Err(e) = socks_request(&w, 7000 + j).await {
+            // a request handed a session that died while idle may fail; that is C12's business, not a re-dial
+            rep.note(format!("follow-up request {j} after cutting idle sessions failed: {e}"));
+        }
+        after.push(w.relay.accepted.load(Ordering::SeqCst));
+    }
+    rep.add("dead_idle_neighbour_histories", 1);
+    let case = json!({"kind": "c13-dead-idle-neighbours", "overlapping_requests": k, "connections_cut_while_idle": dead, "tls_connections_before": dials_before, "after_each_followup": after});
+    rep.case(Some(hash_str(&case.to_string())));
+    rep.sample(case.clone());
+    if *after.last().unwrap() > dials_before {
+        rep.violate("reuse", "dead_idle_neighbours+min_idle0", "redialled_although_healthy_idle_session_existed", format!("{k} overlapping requests left {k} idle sessions; connections {dead:?} (accept order) were cut while idle, {} stayed healthy; sequential requests afterwards opened new TLS connections ({dials_before} -> {after:?})", k - dead.len()), case);
+    }
+    w.client.stop_session_pool_cleanup().await;
+}
+
 async fn bursty(rep: &mut Report, k: u32, rounds: u32) {
     let pool = SessionPoolConfig { check_interval: Duration::from_secs(3600), idle_timeout: Duration::from_secs(7200), min_idle_sessions: 1 };
     let Some(w) = build_world(pool).await else {
@@ -760,6 +852,9 @@ fn run_once(ctx: Ctx) -> Report {
         }
         for long_first in [true, false] {
             overlap_then_sequential(&mut rep, long_first).await;
+        }
+        for (k, dead) in if quick { vec![(2usize, vec![1usize]), (3, vec![1, 2])] } else { vec![(2, vec![1]), (2, vec![0]), (3, vec![2]), (3, vec![1, 2]), (3, vec![0, 2]), (4, vec![1, 2, 3]), (4, vec![0])] } {
+            dead_idle_neighbours(&mut rep, k, dead).await;
         }
         for (k, rounds) in if quick { vec![(4u32, 3u32)] } else { vec![(4, 3), (8, 5), (2, 12), (16, 3)] } {
             bursty(&mut rep, k, rounds).await;
